@@ -134,6 +134,85 @@ static void c12Packet(W& w)
             }
 }
 
+// Flag setters take a MASK: every mask value (incl. the public two-bit CommonFlags::seg) must be set
+// and cleared as a whole, from every prior flag state, without touching other bits or fields.
+template <class T, class Mask, class Word>
+static void maskSemantics(W& w, const char* cls, const std::vector<Word>& masks, const std::vector<Word>& backgrounds, std::function<T(Word)> make,
+                          std::function<void(T&, Mask, bool)> set, std::function<bool(const T&, Mask)> get, std::function<Word(const T&)> flags,
+                          std::function<uint64_t(const T&)> others)
+{
+    for (Word bg : backgrounds)
+        for (Word m : masks)
+            for (int val = 0; val < 2; ++val)
+            {
+                auto desc = [&] { return ofmt("k=c11mask;cls=%s;bg=%x;mask=%x;val=%d", cls, (unsigned) bg, (unsigned) m, val); };
+                if (!w.begin_case(desc))
+                    continue;
+                T t = make(bg);
+                uint64_t o0 = others(t);
+                set(t, static_cast<Mask>(m), val != 0);
+                Word want = (Word) (val ? (bg | m) : (bg & ~m));
+                Word got = flags(t);
+                if (got != want)
+                    w.fail(std::string("flag-mask-semantics:") + cls, ofmt("flags 0x%x, set(mask 0x%x, %s): flags are 0x%x, expected 0x%x", (unsigned) bg, (unsigned) m, val ? "true" : "false",
+                                                                        (unsigned) got, (unsigned) want));
+                if (get(t, static_cast<Mask>(m)) != ((want & m) != 0))
+                    w.fail(std::string("flag-mask-getter:") + cls, ofmt("flags 0x%x mask 0x%x: getter returns %d", (unsigned) want, (unsigned) m, (int) get(t, static_cast<Mask>(m))));
+                if (others(t) != o0)
+                    w.fail(std::string("side-effect:") + cls + "::setFlag(mask)", ofmt("set(mask 0x%x) changed another field", (unsigned) m));
+                w.add(mc::C_TRACES, 1);
+                w.add(mc::C_TRANS, 1);
+                w.outcome(mc::mix(mc::fnv_s(cls), (uint64_t) __builtin_popcount(m) * 4 + val * 2 + (bg != 0)));
+            }
+}
+
+static void c11Masks(W& w, int which)
+{
+    namespace A = ASAM::CMP;
+    std::vector<uint8_t> all8, bg8;
+    for (int i = 1; i < 256; ++i)
+        all8.push_back((uint8_t) i);
+    for (int i = 0; i < 256; ++i)
+        bg8.push_back((uint8_t) i);
+    std::vector<uint16_t> m16 = {0x00FF, 0xFF00, 0xFFFF, 0x0F0F, 0x5555, 0x03FF, 0x003B}, bg16 = {0, 0xFFFF, 0x5555, 0xAAAA, 0x1234, 0x0F0F};
+    for (int b = 0; b < 16; ++b)
+    {
+        m16.push_back((uint16_t) (1u << b));
+        bg16.push_back((uint16_t) (1u << b));
+        if (b < 15)
+            m16.push_back((uint16_t) (3u << b));
+    }
+    if (which == 0)
+        maskSemantics<A::MessageHeader, A::MessageHeader::CommonFlags, uint8_t>(
+            w, "MessageHeader", all8, bg8,
+            [](uint8_t bg) { A::MessageHeader h; h.setTimestamp(0x1122334455667788ull); h.setInterfaceId(0x99AABBCC); h.setPayloadType(0xDD); h.setPayloadLength(0xEEFF); h.setCommonFlags(bg); return h; },
+            [](A::MessageHeader& h, A::MessageHeader::CommonFlags m, bool v) { h.setCommonFlag(m, v); }, [](const A::MessageHeader& h, A::MessageHeader::CommonFlags m) { return h.getCommonFlag(m); },
+            [](const A::MessageHeader& h) { return h.getCommonFlags(); },
+            [](const A::MessageHeader& h) { return mc::mix(mc::mix(h.getTimestamp(), h.getInterfaceId()), (uint64_t) h.getPayloadType() << 16 | h.getPayloadLength()); });
+    else if (which == 1)
+        maskSemantics<A::Packet, A::MessageHeader::CommonFlags, uint8_t>(
+            w, "Packet", all8, bg8,
+            [](uint8_t bg) { A::Packet p; p.setTimestamp(7); p.setInterfaceId(8); p.setVendorId(9); p.setSegmentType(A::MessageHeader::SegmentType::firstSegment); p.setCommonFlags(bg); return p; },
+            [](A::Packet& h, A::MessageHeader::CommonFlags m, bool v) { h.setCommonFlag(m, v); }, [](const A::Packet& h, A::MessageHeader::CommonFlags m) { return h.getCommonFlag(m); },
+            [](const A::Packet& h) { return h.getCommonFlags(); },
+            [](const A::Packet& h) { return mc::mix(mc::mix(h.getTimestamp(), h.getInterfaceId()), (uint64_t) h.getVendorId() << 8 | (uint8_t) h.getSegmentType()); });
+    else if (which == 2)
+        maskSemantics<A::CanFdPayload, A::CanPayloadBase::Flags, uint16_t>(
+            w, "CanFdPayload", m16, bg16, [](uint16_t bg) { A::CanFdPayload p; p.setId(0x1234567); p.setCrc(0x1ABCDE); p.setErrorPosition(0x4321); p.setFlags(bg); return p; },
+            [](A::CanFdPayload& h, A::CanPayloadBase::Flags m, bool v) { h.setFlag(m, v); }, [](const A::CanFdPayload& h, A::CanPayloadBase::Flags m) { return h.getFlag(m); },
+            [](const A::CanFdPayload& h) { return h.getFlags(); }, [](const A::CanFdPayload& h) { return mc::mix(mc::mix(h.getId(), h.getCrc()), h.getErrorPosition()); });
+    else if (which == 3)
+        maskSemantics<A::LinPayload, A::LinPayload::Flags, uint16_t>(
+            w, "LinPayload", m16, bg16, [](uint16_t bg) { A::LinPayload p; p.setLinId(0x2A); p.setChecksum(0x77); p.setFlags(bg); return p; },
+            [](A::LinPayload& h, A::LinPayload::Flags m, bool v) { h.setFlag(m, v); }, [](const A::LinPayload& h, A::LinPayload::Flags m) { return h.getFlag(m); },
+            [](const A::LinPayload& h) { return h.getFlags(); }, [](const A::LinPayload& h) { return mc::mix(h.getLinId(), h.getChecksum()); });
+    else
+        maskSemantics<A::EthernetPayload, A::EthernetPayload::Flags, uint16_t>(
+            w, "EthernetPayload", m16, bg16, [](uint16_t bg) { A::EthernetPayload p; uint8_t d[3] = {1, 2, 3}; p.setData(d, 3); p.setFlags(bg); return p; },
+            [](A::EthernetPayload& h, A::EthernetPayload::Flags m, bool v) { h.setFlag(m, v); }, [](const A::EthernetPayload& h, A::EthernetPayload::Flags m) { return h.getFlag(m); },
+            [](const A::EthernetPayload& h) { return h.getFlags(); }, [](const A::EthernetPayload& h) { return mc::mix(h.getDataLength(), mc::fnv(h.getRawPayload() + 6, 3)); });
+}
+
 static std::vector<ErasedCls> allClasses()
 {
     std::vector<ErasedCls> v;
@@ -205,6 +284,15 @@ int main(int argc, char** argv)
                        "the protocol layouts (DESIGN.md Appendix A); distinct = distinct (class, field, population count of the value) combinations executed";
         run.replay_case = [prop](W& w, const std::string& cs) {
             auto kv = mc::kv_parse(cs);
+            if (kv["k"] == "c11mask")
+            {
+                // cheap: re-run the whole mask sweep of that class
+                const char* names[5] = {"MessageHeader", "Packet", "CanFdPayload", "LinPayload", "EthernetPayload"};
+                for (int i = 0; i < 5; ++i)
+                    if (kv["cls"] == names[i])
+                        c11Masks(w, i);
+                return;
+            }
             if (kv["k"] == "c12pkt" || kv["k"] == "c12cls" || kv["k"] == "c11seq")
             {
                 // class-level cases are cheap: re-run the whole class-level check
@@ -241,6 +329,8 @@ int main(int argc, char** argv)
                 if (!isReadOnly(classes[ci].fields[fi]))
                     ts.push_back({ci, fi});
         run.round("every (class, field) x values x backgrounds", ts.size(), [&](W& w, uint64_t o) { classes[ts[o].ci].runField(w, prop, ts[o].fi); });
+        if (prop == "C11")
+            run.round("flag setters with every mask value (incl. multi-bit masks such as CommonFlags::seg) from every prior flag state", 5, [&](W& w, uint64_t o) { c11Masks(w, (int) o); });
         if (prop == "C12")
         {
             run.round("class level: default images, reserved bits, header sizes", classes.size(), [&](W& w, uint64_t o) { classes[o].runClass(w); });
